@@ -133,6 +133,20 @@ func TestC10(t *testing.T) {
 				}
 			}
 		}
+		// dials that reach a server which answers but is not an SP peer of the socket (every dial is refused
+		// by the transport after the connection was made): transport x answer x synchronous / redialling
+		for _, tr := range []string{"ws", "wss", "tcp", "ipc", "tls+tcp"} {
+			modes := []string{"badproto", "garbage"}
+			if tr == "ws" || tr == "wss" {
+				modes = []string{"nosub", "othersub"}
+			}
+			for _, mode := range modes {
+				for _, act := range []string{"sync", "async"} {
+					p := hx.AllProtos[rnd.Intn(len(hx.AllProtos))]
+					cases = append(cases, mon.CaseSpec{Name: "foreign/" + tr + "/" + mode + "/" + act + "/" + p, Spec: spec{Kind: "foreign", Tran: tr, Act: act, Target: mode, Proto: p, Yield: rnd.Intn(2) == 0}})
+				}
+			}
+		}
 		for _, p := range []string{"req", "rep", "sub", "surveyor", "respondent", "pair", "bus"} {
 			tr := cePrefix + []string{"inproc", "tcp", "ipc"}[rnd.Intn(3)]
 			cases = append(cases, mon.CaseSpec{Name: "sibling/pipe/" + p + "/" + tr, Spec: spec{Kind: "sibling", Target: "pipe", Proto: p, Tran: tr}})
@@ -176,6 +190,8 @@ func TestC10(t *testing.T) {
 			runPeerGone(c, sp)
 		case "exthandler":
 			runExtHandler(c, sp)
+		case "foreign":
+			runForeign(c, sp)
 		}
 		if n := ceCloses.Swap(0); n > 0 {
 			c.Count("pipe_closes_reporting_an_error", int(n))
@@ -190,7 +206,7 @@ func TestC10(t *testing.T) {
 // census: after all sockets of the case are closed nothing of theirs may remain.
 func census(c *mon.Case, sp spec, base mon.GoroutineBaseline, fds []string, ids0 []uint32) {
 	ctx := sp.Kind + "/" + sp.Tran + sp.Act
-	if sp.Kind == "peergone" {
+	if sp.Kind == "peergone" || sp.Kind == "foreign" {
 		ctx = sp.Kind + "/" + sp.Tran + "/" + sp.Act + "/" + sp.Target
 	}
 	r, left := base.AwaitNoLeak(mon.AwaitOpts{MaxTimer: 20 * time.Millisecond})
